@@ -1,6 +1,9 @@
 import Noodles.Csi.BinningProof
 import Noodles.Csi.Chunks
 import Noodles.Csi.Query
+import Noodles.Index.LinearProof
+import Noodles.Index.CsiProof
+import Noodles.Index.TextProof
 /-!
 # C17 — binning soundness; merging/pruning never uncovers; index files round trip
 
@@ -46,5 +49,179 @@ theorem add_chunk_covers_new (c : Chunk) (cs : List Chunk) (hle : ∀ x ∈ cs, 
 theorem add_chunk_keeps_old (c l : Chunk) (cs : List Chunk) (hl : l ∈ cs) (hle : ∀ x ∈ cs, x.e ≤ c.e) :
     ∃ c' ∈ addChunkRev c cs, c'.s ≤ l.s ∧ l.e ≤ c'.e :=
   addChunkRev_mem_old c l cs hl hle
+
+/-!
+## Index files: write, then read
+
+Models: `Noodles/Index/{Common,Linear,Csi,Text}.lean` (byte-level transcriptions of the noodles
+writers and readers); helper lemmas: `Noodles/Index/*Proof.lean`. `….WF` collects the
+representability conditions of a format (counts fit the count field, bin ids are `u32`, distinct
+and not the pseudo-bin's id, offsets are `u64`, names NUL-free, …); `write… = some (enc…)`
+says the guards the Rust writer checks (`u32::try_from`, `i32::try_from`, …) all pass.
+
+BAI, tabix and CSI end with an OPTIONAL `n_no_coor`, which the readers detect by hitting the
+end of the stream. With the count present the files are self-delimiting (`∀ rest`); without it
+the index must be the last thing in the stream — 8 further bytes WOULD be taken for the count
+(see the `example` after `bai_roundtrip`).
+-/
+open Noodles.Index
+open Noodles.Codec (Bytes)
+
+/-- gzi: what is written is read back; the file is self-delimiting but the reader insists on
+end of file after it (`unexpected trailing data`). -/
+theorem gzi_roundtrip (ix : Gzi) (h : ix.WF) :
+    readGzi (encGzi ix) = .ok ix ∧
+    (∀ rest, decGziBody (encGzi ix ++ rest) = .ok (ix, rest)) ∧
+    (∀ rest, rest ≠ [] → readGzi (encGzi ix ++ rest) = .error .invalid) :=
+  ⟨readGzi_rt ix h, decGziBody_rt ix h, readGzi_trailing ix h⟩
+
+example : Gzi.WF [(4668, 21294), (23810, 86529)] := by
+  simp [Gzi.WF]
+
+/-- BAI: every representable index (any bins in any order, chunks, the metadata pseudo-bin
+37450 with its two pseudo-chunks, linear offsets, unplaced count) is accepted by the writer and
+read back EQUAL. -/
+theorem bai_roundtrip (ix : Bai) (h : ix.WF) :
+    writeBai ix = some (encBai ix) ∧
+    readBai (encBai ix) = .ok (ix, []) ∧
+    (ix.unplaced.isSome → ∀ rest, readBai (encBai ix ++ rest) = .ok (ix, rest)) := by
+  refine ⟨by simp [writeBai, guardBai_of_WF ix h], ?_, ?_⟩
+  · cases hu : ix.unplaced with
+    | none => exact readBai_rt_none ix h hu
+    | some n => simpa using readBai_rt_some ix h n hu []
+  · intro hs rest
+    cases hu : ix.unplaced with
+    | none => rw [hu] at hs; cases hs
+    | some n => exact readBai_rt_some ix h n hu rest
+
+/-- non-vacuity: bins out of order, an empty bin, metadata, linear offsets, unplaced count -/
+example : Bai.WF ⟨[⟨[(4681, [⟨10, 20⟩, ⟨30, 40⟩]), (0, [])], some ⟨1, 2, 3, 4⟩, [10, 30]⟩,
+    ⟨[], none, []⟩], some 5⟩ := by
+  simp [Bai.WF, RefLin.WF, Bins.WF, Chunk.WF, metaWF, Meta.WF, unplacedWF, countBound,
+    metaIdLinear]
+  rintro a b (⟨rfl, rfl⟩ | ⟨rfl, rfl⟩) <;> simp
+
+/-- why `∀ rest` needs the count: without `n_no_coor`, eight following bytes are read as one -/
+example : readBai (encBai ⟨[], none⟩ ++ Noodles.Codec.le 8 7) = .ok (⟨[], some 7⟩, []) := by
+  rfl
+
+/-- tabix: as BAI, plus the header — format, column indices, comment prefix, skip count and the
+sequence names, which may contain ANY bytes except NUL. -/
+theorem tabix_roundtrip (ix : Tabix) (h : ix.WF) :
+    writeTabix ix = some (encTabix ix) ∧
+    readTabix (encTabix ix) = .ok (ix, []) ∧
+    (ix.unplaced.isSome → ∀ rest, readTabix (encTabix ix ++ rest) = .ok (ix, rest)) := by
+  refine ⟨by simp [writeTabix, guardTabix_of_WF ix h], ?_, ?_⟩
+  · cases hu : ix.unplaced with
+    | none => exact readTabix_rt_none ix h hu
+    | some n => simpa using readTabix_rt_some ix h n hu []
+  · intro hs rest
+    cases hu : ix.unplaced with
+    | none => rw [hu] at hs; cases hs
+    | some n => exact readTabix_rt_some ix h n hu rest
+
+/-- the header alone, self-delimiting, names with arbitrary non-NUL bytes -/
+theorem tabix_header_roundtrip (h : Header) (hw : h.WF) (rest : Bytes) :
+    decHeader (encHeader h ++ rest) = .ok (h, rest) :=
+  decHeader_rt h hw rest
+
+/-- non-vacuity: a BED-style header whose names hold bytes 0xFF, 0x01, TAB, LF and an empty name -/
+example : Header.WF ⟨.generic true, 0, 1, some 2, 35, 7, [[255, 1], [9, 10, 200], []]⟩ := by
+  simp [Header.WF, Format.specialized, namesBytes]
+
+/-- CSI, bytes: the writer accepts every representable index and the reader returns
+`rewriteCsi ix` — the same index except that each reference's `index` map now holds, for every
+bin, the loffset the writer computed (`first_record_start_position`). -/
+theorem csi_roundtrip (ix : CsiIndex) (h : ix.WF) :
+    writeCsi ix = some (encCsi ix) ∧
+    readCsi (encCsi ix) = .ok (rewriteCsi ix, []) ∧
+    (ix.unplaced.isSome → ∀ rest, readCsi (encCsi ix ++ rest) = .ok (rewriteCsi ix, rest)) := by
+  refine ⟨by simp [writeCsi, guardCsi_of_WF ix h], ?_, ?_⟩
+  · cases hu : ix.unplaced with
+    | none => exact readCsi_rt_none ix h hu
+    | some n => simpa using readCsi_rt_some ix h n hu []
+  · intro hs rest
+    cases hu : ix.unplaced with
+    | none => rw [hu] at hs; cases hs
+    | some n => exact readCsi_rt_some ix h n hu rest
+
+/-- CSI, answers: what is read back differs from what was written ONLY in the bins' loffsets
+(geometry, header, unplaced count, and per reference the bins with their chunks and the
+metadata are equal), and for every reference whose `index` has one loffset per bin (what the
+indexer and the reader both establish) every `min_offset` and therefore every query answer is
+the same. The loffset rewrite takes a minimum over a chain of ancestors; the candidates of
+`min_offset` (bins whose interval ends at or after the query start) are closed under ancestors,
+so the minimum over the candidates cannot move. -/
+theorem csi_roundtrip_same_answers (ix : CsiIndex) (h : ix.WF) (ha : ∀ r ∈ ix.refs, r.Aligned) :
+    ∃ ix', readCsi (encCsi ix) = .ok (ix', []) ∧
+      ix'.minShift = ix.minShift ∧ ix'.depth = ix.depth ∧ ix'.header = ix.header ∧
+      ix'.unplaced = ix.unplaced ∧ ix'.refs.length = ix.refs.length ∧
+      ∀ (i : Nat) (h1 : i < ix'.refs.length) (h2 : i < ix.refs.length),
+        ix'.refs[i].bins = ix.refs[i].bins ∧ ix'.refs[i].md = ix.refs[i].md ∧
+        (∀ q, Noodles.Csi.minOffsetBinned ix'.refs[i].index ix.minShift ix.depth q
+            = Noodles.Csi.minOffsetBinned ix.refs[i].index ix.minShift ix.depth q) ∧
+        (∀ qs qe, queryRef ix'.refs[i] ix.minShift ix.depth qs qe
+            = queryRef ix.refs[i] ix.minShift ix.depth qs qe) := by
+  refine ⟨rewriteCsi ix, (csi_roundtrip ix h).2.1, rfl, rfl, rfl, rfl, by simp [rewriteCsi], ?_⟩
+  intro i h1 h2
+  have hr : (rewriteCsi ix).refs[i] = rewriteRef ix.refs[i] := by simp [rewriteCsi]
+  have hmin := minOffset_rewrite ix.refs[i] (ha _ (List.getElem_mem h2)) ix.minShift ix.depth
+  rw [hr]
+  refine ⟨rfl, rfl, hmin, ?_⟩
+  intro qs qe
+  unfold queryRef
+  rw [hmin qs]
+  rfl
+
+/-- non-vacuity, and the index really changes: bin 4681's loffset 200 is written as 100, the
+loffset of its present parent 585 -/
+example : CsiIndex.WF ⟨14, 5, none, [⟨[(4681, [⟨200, 300⟩]), (585, [⟨100, 200⟩])],
+    [(4681, 200), (585, 100)], some ⟨100, 300, 2, 0⟩⟩], some 0⟩ := by
+  simp [CsiIndex.WF, RefCsi.WF, Bins.WF, Chunk.WF, metaWF, Meta.WF, unplacedWF, metaIdCsi]
+  refine ⟨?_, ?_⟩
+  · rintro a b (⟨rfl, rfl⟩ | ⟨rfl, rfl⟩) <;> simp
+  · rintro a b (⟨rfl, rfl⟩ | ⟨rfl, rfl⟩) <;> simp
+
+example : RefCsi.Aligned ⟨[(4681, [⟨200, 300⟩]), (585, [⟨100, 200⟩])],
+    [(4681, 200), (585, 100)], none⟩ := by
+  simp [RefCsi.Aligned]
+
+example : firstStart [(4681, 200), (585, 100)] 4681 = 100 := by
+  unfold firstStart
+  rw [firstStartLoop]; simp [lookup]
+  rw [firstStartLoop]; simp [lookup]
+
+/-! fai. The full-strength statement
+```
+theorem fai_roundtrip (ix : List FaiRecord) (h : ∀ r ∈ ix, r.WF) : readFai (encFai ix) = .ok ix
+```
+(names: ANY bytes but TAB and LF — the name is a `BStr`, filled by the FASTA indexer from the
+definition line as bytes and written as bytes) is FALSE for the code as it is: both fai readers
+push the whole line through `str` first (known finding F34). Witness below. What holds is the
+statement with the extra hypothesis that every name is well-formed UTF-8. -/
+
+/-- fai: every index whose names are free of TAB and LF AND are valid UTF-8 reads back equal. -/
+theorem fai_roundtrip_partial (ix : List FaiRecord)
+    (h : ∀ r ∈ ix, r.WF ∧ validUtf8 r.name = true) : readFai (encFai ix) = .ok ix :=
+  readFai_rt ix h
+
+example : FaiRecord.WF ⟨[115, 113, 195, 169, 32, 13], 10946, 4, 80, 81⟩ ∧
+    validUtf8 [115, 113, 195, 169, 32, 13] = true := by
+  refine ⟨by simp [FaiRecord.WF, TAB, LF], by decide⟩
+
+/-- negation witness for the full statement: the name `sq\xff` (what the FASTA indexer makes of
+`>sq\xff`) is representable, the writer emits it, the reader answers `InvalidData` -/
+example : FaiRecord.WF ⟨[0x73, 0x71, 0xff], 4, 5, 4, 5⟩ ∧
+    readFai (encFai [⟨[0x73, 0x71, 0xff], 4, 5, 4, 5⟩]) = .error .invalid := by
+  refine ⟨by simp [FaiRecord.WF, TAB, LF], by rfl⟩
+
+/-- crai (the text inside the gzip member): every index reads back equal; an unmapped slice is
+`-1` in the first column. -/
+theorem crai_roundtrip (ix : List CraiRecord) (h : ∀ r ∈ ix, r.WF) :
+    readCrai (encCrai ix) = .ok ix :=
+  readCrai_rt ix h
+
+example : CraiRecord.WF ⟨none, 0, 0, 1869, 13, 0⟩ ∧ CraiRecord.WF ⟨some 3, 10946, 150, 17, 5, 90⟩ := by
+  simp [CraiRecord.WF]
 
 end Noodles.Props.C17
